@@ -21,6 +21,10 @@ type Anchors struct {
 	InterpT   *types.Named
 	ParserT   *types.Named
 	LexerT    *types.Named
+	// the type itself and the library structs it embeds (state moved into an
+	// embedded struct keeps its role)
+	ParserFam map[*types.Named]bool
+	LexerFam  map[*types.Named]bool
 	SynErrT   *types.Named
 	JMESPathT *types.Named
 	FEntryT   *types.Named
@@ -65,6 +69,49 @@ type TableEntry struct {
 	Handler   *ssa.Function
 	HasExpRef bool
 	Pos       string
+}
+
+// structFamily: T and, transitively, the library struct types it embeds.
+func structFamily(T *types.Named) map[*types.Named]bool {
+	fam := map[*types.Named]bool{}
+	var walk func(n *types.Named)
+	walk = func(n *types.Named) {
+		if n == nil || fam[n] {
+			return
+		}
+		st, ok := n.Underlying().(*types.Struct)
+		if !ok {
+			return
+		}
+		fam[n] = true
+		for i := 0; i < st.NumFields(); i++ {
+			f := st.Field(i)
+			if !f.Embedded() {
+				continue
+			}
+			t := f.Type()
+			if pt, ok := t.(*types.Pointer); ok {
+				t = pt.Elem()
+			}
+			if m, ok := t.(*types.Named); ok && m.Obj().Pkg() == T.Obj().Pkg() {
+				walk(m)
+			}
+		}
+	}
+	walk(T)
+	return fam
+}
+
+// inFam: t (or what it points to) is a member of the family.
+func inFam(fam map[*types.Named]bool, t types.Type) bool {
+	if pt, ok := t.Underlying().(*types.Pointer); ok {
+		t = pt.Elem()
+	}
+	if pt, ok := t.(*types.Pointer); ok {
+		t = pt.Elem()
+	}
+	n, ok := t.(*types.Named)
+	return ok && fam[n]
 }
 
 func fieldIndex(n *types.Named, name string) int {
@@ -158,7 +205,7 @@ func resolveAnchors(c *Ctx) *Anchors {
 		if !ok {
 			continue
 		}
-		if types.Identical(mt.Key(), a.TokT) && types.Identical(mt.Elem(), types.Typ[types.Int]) {
+		if types.Identical(mt.Key(), a.TokT) && isPlainInt(mt.Elem()) && !types.Identical(mt.Elem(), a.TokT) {
 			if a.BindingPowers != nil {
 				lost("two map[tokType]int globals")
 			}
@@ -184,7 +231,7 @@ func resolveAnchors(c *Ctx) *Anchors {
 				case *types.Slice:
 					et = t.Elem()
 				}
-				if et == nil || !types.Identical(et, types.Typ[types.Int]) {
+				if et == nil || !isPlainInt(et) || types.Identical(et, a.TokT) {
 					continue
 				}
 				if a.BindingPowers != nil && a.BindingPowers != g {
@@ -465,6 +512,12 @@ func (c *Ctx) resolveFuncAnchors(a *Anchors) {
 		if pt, ok := t.(*types.Pointer); ok {
 			t = pt.Elem()
 		}
+		if T == a.ParserT {
+			return inFam(a.ParserFam, t)
+		}
+		if T == a.LexerT {
+			return inFam(a.LexerFam, t)
+		}
 		return types.Identical(t, T)
 	}
 	sig := func(f *ssa.Function, params []func(types.Type) bool, results []func(types.Type) bool) bool {
@@ -487,7 +540,15 @@ func (c *Ctx) resolveFuncAnchors(a *Anchors) {
 	is := func(T types.Type) func(types.Type) bool {
 		return func(t types.Type) bool { return types.Identical(t, T) }
 	}
-	isInt, isStr, isBool := is(types.Typ[types.Int]), is(types.Typ[types.String]), is(types.Typ[types.Bool])
+	_, isStr, isBool := is(types.Typ[types.Int]), is(types.Typ[types.String]), is(types.Typ[types.Bool])
+	// int, or a named type over int that is not one of the enumerations (a `precedence` type)
+	isInt := func(t types.Type) bool {
+		if types.Identical(t, a.TokT) || types.Identical(t, a.NodeTypeT) || types.Identical(t, a.JPTypeT) {
+			return false
+		}
+		b, ok := t.Underlying().(*types.Basic)
+		return ok && b.Kind() == types.Int
+	}
 	isErr := func(t types.Type) bool { return isErrorType(t) }
 	isNode, isTok, isToken := is(a.ASTNode), is(a.TokT), is(a.TokenT)
 	isRune := is(types.Typ[types.Rune])
@@ -537,7 +598,7 @@ func (c *Ctx) resolveFuncAnchors(a *Anchors) {
 			for _, in := range b.Instrs {
 				if st, ok := in.(*ssa.Store); ok {
 					if fa, ok := st.Addr.(*ssa.FieldAddr); ok {
-						if pt, ok := fa.X.Type().Underlying().(*types.Pointer); ok && types.Identical(pt.Elem(), T) && fieldName(T, fa.Field) == field {
+						if pt, ok := fa.X.Type().Underlying().(*types.Pointer); ok && (types.Identical(pt.Elem(), T) || (T == a.ParserT && inFam(a.ParserFam, pt.Elem())) || (T == a.LexerT && inFam(a.LexerFam, pt.Elem()))) && fieldName(pt.Elem(), fa.Field) == field {
 							return true
 						}
 					}
@@ -886,6 +947,37 @@ func (c *Ctx) resolveTypeAnchors(a *Anchors) {
 		lost("%s: %d fields can be the %s field", T.Obj().Name(), len(idxs), role)
 		return -1
 	}
+	// the same over a type and the structs it embeds: (owner, index) pairs
+	type fref struct {
+		T *types.Named
+		i int
+	}
+	famWhere := func(fam map[*types.Named]bool, pred func(types.Type) bool) []fref {
+		var out []fref
+		var ts []*types.Named
+		for T := range fam {
+			ts = append(ts, T)
+		}
+		sort.Slice(ts, func(i, j int) bool { return ts[i].Obj().Name() < ts[j].Obj().Name() })
+		for _, T := range ts {
+			for _, i := range fieldsWhere(T, pred) {
+				out = append(out, fref{T, i})
+			}
+		}
+		return out
+	}
+	oneFam := func(T *types.Named, role string, refs []fref) fref {
+		if len(refs) == 1 {
+			return refs[0]
+		}
+		for _, r := range refs {
+			if st(r.T).Field(r.i).Name() == role {
+				return r
+			}
+		}
+		lost("%s: %d fields can be the %s field", T.Obj().Name(), len(refs), role)
+		return fref{}
+	}
 	basic := func(k types.BasicKind) func(types.Type) bool {
 		return func(t types.Type) bool {
 			b, ok := t.(*types.Basic)
@@ -896,6 +988,7 @@ func (c *Ctx) resolveTypeAnchors(a *Anchors) {
 	a.ASTNode = c.namedType(c.SLib, "ASTNode")
 	a.ParserT = c.namedType(c.SLib, "Parser")
 	a.LexerT = c.namedType(c.SLib, "Lexer")
+	a.ParserFam, a.LexerFam = structFamily(a.ParserT), structFamily(a.LexerT)
 	a.SynErrT = c.namedType(c.SLib, "SyntaxError")
 	a.JMESPathT = c.namedType(c.SLib, "JMESPath")
 
@@ -921,7 +1014,7 @@ func (c *Ctx) resolveTypeAnchors(a *Anchors) {
 
 	// ---- token: element of what the lexer's (string) ([]T, error) method returns
 	for _, f := range allFuncs(c.SLib) {
-		if f.Signature.Recv() == nil || named(f.Signature.Recv().Type()) != a.LexerT {
+		if f.Signature.Recv() == nil || !inFam(a.LexerFam, f.Signature.Recv().Type()) {
 			continue
 		}
 		p, r := f.Signature.Params(), f.Signature.Results()
@@ -963,65 +1056,73 @@ func (c *Ctx) resolveTypeAnchors(a *Anchors) {
 		lost("the token type is not the first field of token")
 	}
 
-	// ---- Parser{expression, tokens, index}
-	setRole(a.ParserT, one(a.ParserT, "expression", fieldsWhere(a.ParserT, basic(types.String))), "expression")
-	setRole(a.ParserT, one(a.ParserT, "tokens", fieldsWhere(a.ParserT, func(t types.Type) bool {
-		sl, ok := t.(*types.Slice)
-		return ok && types.Identical(sl.Elem(), a.TokenT)
-	})), "tokens")
-	setRole(a.ParserT, one(a.ParserT, "index", fieldsWhere(a.ParserT, basic(types.Int))), "index")
+	// ---- Parser{expression, tokens, index} (possibly inside an embedded struct)
+	{
+		r := oneFam(a.ParserT, "expression", famWhere(a.ParserFam, basic(types.String)))
+		setRole(r.T, r.i, "expression")
+		r = oneFam(a.ParserT, "tokens", famWhere(a.ParserFam, func(t types.Type) bool {
+			sl, ok := t.(*types.Slice)
+			return ok && types.Identical(sl.Elem(), a.TokenT)
+		}))
+		setRole(r.T, r.i, "tokens")
+		r = oneFam(a.ParserT, "index", famWhere(a.ParserFam, basic(types.Int)))
+		setRole(r.T, r.i, "index")
+	}
 
 	// ---- Lexer{expression, currentPos, lastWidth, buf}: the two ints are told
 	// apart by the push-back method (), which writes the cursor and only reads the width
-	setRole(a.LexerT, one(a.LexerT, "expression", fieldsWhere(a.LexerT, basic(types.String))), "expression")
-	lints := fieldsWhere(a.LexerT, basic(types.Int))
+	{
+		r := oneFam(a.LexerT, "expression", famWhere(a.LexerFam, basic(types.String)))
+		setRole(r.T, r.i, "expression")
+	}
+	lints := famWhere(a.LexerFam, basic(types.Int))
 	if len(lints) == 2 {
-		written := map[int]int{}
+		written := map[fref]int{}
 		for _, f := range allFuncs(c.SLib) {
-			if f.Signature.Recv() == nil || named(f.Signature.Recv().Type()) != a.LexerT || f.Signature.Params().Len() != 0 || f.Signature.Results().Len() != 0 {
+			if f.Signature.Recv() == nil || !inFam(a.LexerFam, f.Signature.Recv().Type()) || f.Signature.Params().Len() != 0 || f.Signature.Results().Len() != 0 {
 				continue
 			}
 			for _, b := range f.Blocks {
 				for _, in := range b.Instrs {
 					if s2, ok := in.(*ssa.Store); ok {
-						if fa, ok := s2.Addr.(*ssa.FieldAddr); ok && named(fa.X.Type()) == a.LexerT {
-							written[fa.Field]++
+						if fa, ok := s2.Addr.(*ssa.FieldAddr); ok && inFam(a.LexerFam, fa.X.Type()) {
+							written[fref{named(fa.X.Type()), fa.Field}]++
 						}
 					}
 				}
 			}
 		}
-		cp, lw := -1, -1
+		var cp, lw *fref
 		switch {
 		case written[lints[0]] > 0 && written[lints[1]] == 0:
-			cp, lw = lints[0], lints[1]
+			cp, lw = &lints[0], &lints[1]
 		case written[lints[1]] > 0 && written[lints[0]] == 0:
-			cp, lw = lints[1], lints[0]
+			cp, lw = &lints[1], &lints[0]
 		default:
-			for _, i := range lints {
-				switch st(a.LexerT).Field(i).Name() {
+			for k := range lints {
+				switch st(lints[k].T).Field(lints[k].i).Name() {
 				case "currentPos":
-					cp = i
+					cp = &lints[k]
 				case "lastWidth":
-					lw = i
+					lw = &lints[k]
 				}
 			}
 		}
-		if cp < 0 || lw < 0 {
+		if cp == nil || lw == nil {
 			lost("Lexer: cannot tell the cursor from the last width")
 		}
-		setRole(a.LexerT, cp, "currentPos")
-		setRole(a.LexerT, lw, "lastWidth")
+		setRole(cp.T, cp.i, "currentPos")
+		setRole(lw.T, lw.i, "lastWidth")
 	} else {
-		for _, i := range lints {
-			setRole(a.LexerT, i, st(a.LexerT).Field(i).Name())
+		for _, r := range lints {
+			setRole(r.T, r.i, st(r.T).Field(r.i).Name())
 		}
 	}
-	for _, i := range fieldsWhere(a.LexerT, func(t types.Type) bool {
+	for _, r := range famWhere(a.LexerFam, func(t types.Type) bool {
 		n := named(t)
 		return n != nil && n.Obj().Pkg() != nil && (n.Obj().Pkg().Path() == "bytes" && n.Obj().Name() == "Buffer" || n.Obj().Pkg().Path() == "strings" && n.Obj().Name() == "Builder")
 	}) {
-		setRole(a.LexerT, i, "buf")
+		setRole(r.T, r.i, "buf")
 	}
 
 	// ---- JMESPath{ast, intr}
